@@ -285,10 +285,46 @@ func runC12(c *Ctx) {
 		}
 		noteBest()
 		ns.StartNode()
+		// adversaries know the header of every new block as soon as it exists: right behind a new
+		// block they push a body for that header (while the node's request to the trusted peer is
+		// still outstanding)
+		snipe := func() {
+			for _, pc := range append([]*PeerConn{}, r.advOrder...) {
+				if pc.Dead || pc.C.IsClosed() || !t.Bool(1, 2) {
+					continue
+				}
+				pc := pc
+				blk := ns.Trusted.Best
+				wait := time.Duration(t.Choose(uint32(2*sc.latBase/time.Millisecond+2*sc.latJitter/time.Millisecond+5))) * time.Millisecond
+				wrap := t.Bool(1, 2)
+				extra := r.advTxs[t.Choose(uint32(len(r.advTxs)))]
+				simrt.GoDaemon("adversary-snipe:"+pc.String(), func() {
+					simrt.Sleep(wait)
+					m := &wire.MsgBlock{Header: blk.Header}
+					for _, tx := range blk.Txs {
+						m.AddTransaction(tx)
+					}
+					m.AddTransaction(extra)
+					if st := r.adv[pc]; st != nil {
+						st.sentBad = append(st.sentBad, "block-header-match-bad-body")
+					}
+					r.c.Probe("bad_body_right_behind_new_block")
+					if wrap {
+						var buf bytes.Buffer
+						if err := m.BtcEncode(&buf, wire.ProtocolVersion); err == nil {
+							pc.Send(wire.NewMsgExtended(wire.CmdBlock, buf.Bytes()))
+							return
+						}
+					}
+					pc.Send(m)
+				})
+			}
+		}
 		for _, ev := range sc.events {
 			simrt.Sleep(ev.after)
 			cr.apply(ev)
 			noteBest()
+			snipe()
 		}
 		// trusted tx traffic once in sync
 		deadline := ns.S.Now() + 5*time.Minute
@@ -310,6 +346,7 @@ func runC12(c *Ctx) {
 		// the adversarial traffic
 		cr.apply(chainEvent{kind: "extend", k: 1})
 		noteBest()
+		snipe()
 		ok, why := cr.settle()
 		simrt.NoPreempt(func() { r.evaluate(ok, why) })
 		c.Res.Nontrivial = true
